@@ -95,6 +95,23 @@ CHECKS = {
    design_ref='5 (C11), 4.4',
    note=TB + ' Board through a one-level abstract game; transposition table off; killer table and statistics arbitrary; clock free; no limits; capture-only list modelled as full list with non-captures rejected.',
    technique='symbolic execution of rustc MIR into z3 integer terms; inductive step with a window-search contract for recursive calls; path-by-path execution of the move orderer'),
+ 'C13': dict(
+   category='other',
+   text=('The same one-node inductive step as C11, but the search may be cut anywhere: the running flag may be cleared at every poll, all limits are symbolic, and every nested '
+         'alpha_beta / quiescence call may report that it was cut short (returning the dummy 0; the cut is sticky). Every transposition-table insert of alpha_beta and alpha_beta_start is observed; '
+         'z3 shows that no insert is reachable on a path on which a nested search of that node was cut. Cut points are free Booleans: all of them at once, not an enumeration of node budgets.'),
+   design_ref='5 (C13)',
+   note=TB + ' One-level abstract game; nested calls by contract-or-abort; nodes with <= 2 (quick) / 3 (thorough) moves; quiescence has no insert site.',
+   technique='symbolic execution of rustc MIR into z3; inductive step with symbolic cut points; observed cache writes as obligations'),
+ 'C09': dict(
+   category='other',
+   text=('Compositional: (WIRE) Uci::go passes max_depth == limits.depth and spawns exactly one search; (LIM) the real limits_exceeded on arbitrary state and limits fires only for a node/time reason '
+         '(never because of the depth limit, always when the node budget or movetime is reached); (ROOT) the real alpha_beta_start with nested searches answering by contract or being cut short records only '
+         'the previous or a legal root move as best move, without panic; (ITER) the real search/iter_deep with that iteration contract, all limits and cut points symbolic: no panic, exactly one bestmove line, '
+         'the move named is a legal root move. Small-limit go commands are additionally run on the real binary.'),
+   design_ref='5 (C09)',
+   note=TB + ' Root nodes with <= 2/3 moves, <= 3 iterations; wall-clock promptness and thread behaviour are outside.',
+   technique='symbolic execution of rustc MIR into z3; contracts for nested searches and iterations; symbolic limits, clock and cut points; replay on the real binary'),
 }
 NA = {
  'C10': 'quantifies over OS-thread interleavings (relaxed AtomicBool + JoinHandle::is_finished); MIR has no thread semantics and Kani does not model concurrency - outside solver-based checking of the real code (DESIGN.md 6)',
